@@ -15,6 +15,7 @@ mod c11;
 mod c12;
 mod c14;
 mod c18;
+mod mp;
 mod sut;
 
 use common::*;
@@ -27,6 +28,8 @@ macro_rules! dispatch {
             "C03" => $f::<c03::C03>($($arg),*),
             "C04" => $f::<c04::C04>($($arg),*),
             "C05" => $f::<c05::C05>($($arg),*),
+            "C06" => $f::<mp::C06>($($arg),*),
+            "C07" => $f::<mp::C07>($($arg),*),
             "C09" => $f::<c09::C09>($($arg),*),
             "C10" => $f::<c10::C10>($($arg),*),
             "C11" => $f::<c11::C11>($($arg),*),
